@@ -56,7 +56,7 @@ var specC03WellFormed = Register(&Spec[WellFormed]{
 })
 
 func TestC03_WellFormed(t *testing.T) {
-	specC03WellFormed.Run(t, func(t *rapid.T) WellFormed { return genWellFormed(t, "w") }, 20000, 200000)
+	specC03WellFormed.Run(t, func(t *rapid.T) WellFormed { return genWellFormed(t, "w") }, 60000, 300000)
 }
 
 // ------------------------------------------------------------------ C03/reject
@@ -171,7 +171,7 @@ var specC03Reject = Register(&Spec[NearMiss]{
 })
 
 func TestC03_Reject(t *testing.T) {
-	specC03Reject.Run(t, genNearMiss, 12000, 120000)
+	specC03Reject.Run(t, genNearMiss, 40000, 200000)
 }
 
 // ------------------------------------------------------------------ C03/roundtrip
@@ -298,7 +298,7 @@ var specC03RoundTrip = Register(&Spec[VersionText]{
 })
 
 func TestC03_RoundTrip(t *testing.T) {
-	specC03RoundTrip.Run(t, genAcceptedCandidate, 30000, 300000)
+	specC03RoundTrip.Run(t, genAcceptedCandidate, 100000, 500000)
 }
 
 // native fuzz target (thorough tier): the same oracle on coverage-guided input.
